@@ -34,6 +34,14 @@ Theorem C03_extract_confined_chain_refuted :
 Proof. exact extract_confined_chain_refuted. Qed.
 Print Assumptions C03_extract_confined_chain_refuted.
 
+(* the same chain without a destination (link members are extracted there since is_path_valid accepts None) *)
+Theorem C03_extract_confined_chain_none_refuted :
+  dest_ok w_d None w_d /\ nodd w_d /\ real_dir w_fs w_d /\ no_links_under w_fs w_d /\
+  In (KCreate, [w_jail; [120]]) (s_eff (final_state (extract_fs w_fs w_d None w_chain 0))) /\
+  ~ effs_under w_d (s_eff (final_state (extract_fs w_fs w_d None w_chain 0))).
+Proof. exact extract_confined_chain_none_refuted. Qed.
+Print Assumptions C03_extract_confined_chain_none_refuted.
+
 (* ---- what does hold.  Main theorem: the destination d is an existing real directory (every prefix of d is a
    directory: no link on the way) given as a canonical absolute path, as a path relative to cwd, or as None (the
    current directory); every symbolic link already below d and every symbolic-link member has a relative target
@@ -59,7 +67,8 @@ Proof. exact extract_confined_nolinks. Qed.
 Print Assumptions C03_extract_confined_partial.
 
 (* destination None = the current directory (formerly refuted by the names ".//abs/x" and "../zz/../dest/x";
-   repaired in get_sanitized_output_path, which now returns the path it checked) *)
+   repaired in get_sanitized_output_path, which now returns the path it checked); symbolic-link members are
+   extracted there too (is_path_valid accepts None) and are covered under the same entry_ok condition *)
 Theorem C03_extract_confined_none : forall f cwd es mode,
   nodd cwd -> real_dir f cwd -> links_safe f cwd -> Forall entry_ok es ->
   effs_under cwd (s_eff (final_state (extract_fs f cwd None es mode))).
@@ -115,6 +124,6 @@ Proof. exact general_hyps_satisfiable. Qed.
 
 Example C03_none_hyps_satisfiable :
   dest_ok w_d None w_d /\ nodd w_d /\ real_dir w_fs w_d /\ links_safe w_fs w_d /\
-  Forall entry_ok [w_file [97; 47; 102]; w_file [46; 47; 98]; w_file [97; 47; 102]] /\
-  length (s_eff (final_state (extract_fs w_fs w_d None [w_file [97; 47; 102]; w_file [46; 47; 98]; w_file [97; 47; 102]] 0))) = 10%nat.
+  Forall entry_ok [w_file [97; 47; 102]; w_link [107] [97]; w_file [107; 47; 103]; w_file [97; 47; 102]] /\
+  length (s_eff (final_state (extract_fs w_fs w_d None [w_file [97; 47; 102]; w_link [107] [97]; w_file [107; 47; 103]; w_file [97; 47; 102]] 0))) = 11%nat.
 Proof. exact none_hyps_satisfiable. Qed.
